@@ -88,6 +88,16 @@ class LoopSpec:
         self.decreases = decreases
 
 
+class LoopSummary:
+    """Replace a loop of a real function by its proven effect (the loop's own proof obligation lives elsewhere and is
+    named in `proved_by`).  effect(L) assigns the loop's outputs (locals through L, heap directly) or raises."""
+
+    def __init__(self, effect, header=None, proved_by=""):
+        self.effect = effect
+        self.header = header
+        self.proved_by = proved_by
+
+
 class NS:
     """attribute view over a dict (used to hand loop locals to invariants)."""
 
@@ -144,9 +154,15 @@ class Interp:
     def func_info(self, fn):
         if not isinstance(fn, types.FunctionType):
             return None
-        if not self.is_tracked_module(getattr(fn, "__module__", None)):
+        mod = getattr(fn, "__module__", None)
+        if not self.is_tracked_module(mod):
             return None
-        return self.index.lookup(fn)
+        if mod not in self.index.files:
+            self.index.add_module(mod)   # tracked modules are indexed on demand: their code never runs natively
+        info = self.index.lookup(fn)
+        if info is None and not getattr(fn, "_pyvc_native", False):
+            raise Unsupported("function %s.%s of a tracked module has no source in the index" % (mod, fn.__qualname__))
+        return info
 
     # ------------------------------------------------------------------ truth / branching
     def truth(self, v):
@@ -1172,6 +1188,11 @@ class Interp:
 
     def st_While(self, s, frame):
         spec, ordinal = self.loop_spec_for(s, frame)
+        if isinstance(spec, LoopSummary):
+            if spec.header is not None and ast.unparse(s.test) != spec.header:
+                raise Unsupported("stale loop summary for %s loop %d" % (frame.qualname, ordinal))
+            self.call(spec.effect, [NS(frame.locals)], {})
+            return
         if spec is not None:
             return self.loop_with_invariant(s, frame, spec, ordinal, None)
         n = 0
